@@ -1,6 +1,8 @@
 package sched
 
 import (
+	"crypto/rand"
+	"errors"
 	"fmt"
 
 	"github.com/buzzfeed/sso/internal/pkg/aead"
@@ -136,6 +138,39 @@ func runC02(p *Plan, res *world.Result) {
 			}
 		}
 	}
+	// fault: the entropy source fails while one value is being sealed (that seal may fail; it may not
+	// succeed with a repeated string either); the values sealed next — by this and by the other
+	// instances — still open to exactly what was sealed
+	if len(s.Stuck()) == 0 && len(pre) > 0 {
+		victim := pre[p.P["mix"]%len(pre)]
+		saved := rand.Reader
+		rand.Reader = failingEntropy{}
+		orig := victim.orig
+		val, err := sessions.MarshalSession(&orig, ciphers[victim.cipher])
+		rand.Reader = saved
+		v.cover("C02|sched|entropy-failure|seal-failed=%v", err != nil)
+		res.Faults["entropy.read-error"]++
+		if err == nil && val == victim.value {
+			v.violate("C02.A3-fresh-nonce", "with the entropy source failing, sealing produced the same string as before", "kind", "sched", "facet", "entropy-failure")
+		}
+		for i, sv := range pre {
+			next := sv.orig
+			next.AccessToken += "-after-fault"
+			val, err := sessions.MarshalSession(&next, ciphers[sv.cipher])
+			if err != nil {
+				v.violate("C02.A1-round-trip", "sealing failed after the entropy source had recovered: "+err.Error(), "kind", "after-entropy-failure")
+				continue
+			}
+			got, err := sessions.UnmarshalSession(val, ciphers[sv.cipher])
+			if err != nil || got.Email != next.Email || got.AccessToken != next.AccessToken || got.RefreshToken != next.RefreshToken {
+				who := "<error>"
+				if got != nil {
+					who = got.Email + "/" + got.AccessToken
+				}
+				v.violate("C02.A1-round-trip", fmt.Sprintf("value %d sealed after a failed seal opens to other data (%s, err %v); sealed %s/%s", i, who, err, next.Email, next.AccessToken), "kind", "after-entropy-failure", "facet", "other-data")
+			}
+		}
+	}
 	for _, t := range s.Stuck() {
 		v.violate("C02.A1-round-trip", fmt.Sprintf("%s never returned", t.Name), "facet", "stuck")
 	}
@@ -150,3 +185,8 @@ func ternaryS(c bool, a, b string) string {
 	}
 	return b
 }
+
+// failingEntropy is an entropy source whose reads fail (a failing getrandom/urandom read).
+type failingEntropy struct{}
+
+func (failingEntropy) Read([]byte) (int, error) { return 0, errors.New("entropy source unavailable") }
